@@ -129,17 +129,21 @@ def case_answers_calls(case):
     return calls
 
 
-def schedules(case, n):
+def schedules(case, n, raises=()):
     """event lists the model is run on: all main steps then callbacks by completion time;
     plus, under --early-exit, for every stuck path k the schedule in which the callbacks of
-    earlier queries run between the flag check and the body of path k."""
+    earlier queries run between the flag check and the body of path k.  The body step of a
+    stuck path whose synchronous solve raises (model: solve_low_level = None) is EvMainRaise (-2)."""
     order = sorted(range(n), key=lambda j: (case.get("delays", {}).get(str(j), 0), j))
-    late = [-1] * (2 * n + 2) + order
-    out = [("late", late)]
+    mains = []
+    for k in range(n):
+        mains += [-1, -2 if k in raises else -1]
+    mains += [-1, -1]
+    out = [("late", mains + order)]
     if case.get("ee"):
         for k, kind in enumerate(case["paths"]):
             if kind == "stuck":
-                out.append((f"stale@{k}", [-1] * (2 * k + 1) + [j for j in order if j < k] + [-1] * (2 * n + 2) + order))
+                out.append((f"stale@{k}", mains[:2 * k + 1] + [j for j in order if j < k] + mains[2 * k + 1:] + order))
     return out
 
 
@@ -156,38 +160,47 @@ def script_of(case, tests=("check_p",)):
     return script
 
 
+def _has_hang(case):
+    reps = list(case.get("replies", {}).values()) + list(case.get("refined", {}).values())
+    for d in case.get("per_test", {}).values():
+        reps += list(d.values())
+    return "hang" in reps
+
+
 def run_case(case):
-    """Runs halmos on one fabricated project; retried when the call log shows that a scripted
-    answer was not delivered (solver process starved on a loaded machine)."""
+    """Runs halmos on one fabricated project.  The solver timeout is huge (a starved solver
+    process on a loaded machine must not read as `unknown`) unless the script contains a `hang`
+    reply; then it is short, and the call log is used to tell whether every other scripted answer
+    was really delivered: if not, the run is repeated, and finally set aside as inconclusive
+    (only when the query file was written, i.e. halmos did ask)."""
     tests = tuple(case.get("tests", ("check_p",)))
+    hang = _has_hang(case)
     last = None
-    for attempt in range(3):
+    for attempt in range(3 if hang else 1):
         d = tempfile.mkdtemp(prefix="c05_")
         try:
             e2e.make_project(d, case["paths"], mul=case.get("mul", False), tests=tests, setup=case.get("setup", False))
             r = e2e.run_halmos(d, script_of(case, tests), early_exit=case.get("ee", False), cache_solver=case.get("cache", False),
-                               timeout_ms=case.get("timeout_ms", 4000) * (attempt + 1), stale_read=case.get("stale"),
-                               extra=case.get("extra", ()), wall=240)
+                               timeout_ms=(2500 * (attempt + 1)) if hang else 300000, stale_read=case.get("stale"),
+                               extra=case.get("extra", ()), wall=900)
         finally:
             shutil.rmtree(d, ignore_errors=True)
         ended = {c[0] for c in r["calls"] if c[2] == "end"}
         res = {"rc": r["rc"], "status": r["status"], "json": r["json"], "calls": [c[:3] for c in r["calls"]], "log_tail": r["log"][-1500:], "attempt": attempt}
         last = res
-        # precondition of the tie: every scripted answer was really delivered (on a loaded
-        # machine the solver process may be starved past the timeout); otherwise run again
-        undelivered = []
-        if not case.get("ee") and not case.get("no_tests") and not case.get("setup_fails"):
+        starved = []
+        if hang and not case.get("ee"):
             for t in tests:
                 reps = case["replies"] if len(tests) == 1 else case["per_test"][t]
                 for jj, kind in reps.items():
-                    if case["paths"][int(jj)] in POTENTIAL + ("stuck",) and kind != "hang" and f"{t}/{jj}.smt2" not in ended:
-                        undelivered.append(f"{t}/{jj}.smt2")
-                    if kind == "sat_invalid" and case.get("mul") and case.get("refined", {}).get(jj) not in (None, "hang") and f"{t}/{jj}.refined.smt2" not in ended:
-                        undelivered.append(f"{t}/{jj}.refined.smt2")
-        res["undelivered"] = undelivered
-        if r["rc"] == -999 or undelivered:
+                    q = f"{t}/{jj}.smt2"
+                    if case["paths"][int(jj)] in POTENTIAL + ("stuck",) and kind != "hang" and q not in ended and q in r["smt_files"]:
+                        starved.append(q)
+        res["starved"] = starved
+        if r["rc"] == -999 or starved:
             continue
         return res
+    last["inconclusive"] = bool(last.get("starved")) or last["rc"] == -999
     return last
 
 
@@ -235,7 +248,8 @@ def gen_cases(tier, r):
             continue
         cases.append(mk(["success", "panic"], {1: k}))
         cases.append(mk(["failflag", "success"], {0: k}, cache=True))
-    cases.append(mk(["success", "panic"], {1: "hang"}, timeout_ms=1500))
+    cases.append(mk(["success", "panic"], {1: "hang"}))
+    cases.append(mk(["success", "stuck"], {1: "hang"}))
     # precedence pairs among two potential paths, both orders, both completion orders
     prec = ["sat", "sat_invalid", "crash", "unknown", "unsat"]
     for a, b in itertools.permutations(prec, 2):
@@ -268,7 +282,7 @@ def gen_cases(tier, r):
     # random / exhaustive part
     kinds = list(KIND_CODE)
     if tier == "quick":
-        n_random = 24
+        n_random = 16
         pool = []
     else:
         n_random = 300
@@ -420,7 +434,7 @@ def impl_solve_e2e(jobs, workdir):
         (d / "script.json").write_text(json.dumps(script))
         dump = d / "q"   # a pathlib.Path is a valid DumpDirectory
         args = types.SimpleNamespace(
-            verbose=0, cache_solver=job["cache"], solver_timeout_assertion=job.get("timeout", 6.0 * (k + 1)),
+            verbose=0, cache_solver=job["cache"], solver_timeout_assertion=job.get("timeout", 300.0),
             resolved_solver_command=[e2e.PY, "-S", str(e2e.HERE / "c05_fake_solver.py"), str(d / "script.json"), str(d / "calls.log")])
         sctx = SolvingContext(dump_dir=dump)
         decl = "(declare-fun f_evm_bvmul_256 ((_ BitVec 256) (_ BitVec 256)) (_ BitVec 256))\n" if job["refinable"] else ""
@@ -448,13 +462,7 @@ def impl_solve_e2e(jobs, workdir):
 
     def one(ij):
         i, job = ij
-        for k in range(3):
-            code, ncalls = attempt(i, job, k)
-            # a timeout although the scripted reply is not `hang`/`unknown`: starved solver process, run again
-            if code == 3 and job["r1"] not in ("hang", "unknown") and not (job["refinable"] and job["r2"] in ("hang", "unknown")):
-                continue
-            break
-        return code, ncalls
+        return attempt(i, job, 0)
 
     try:
         with ThreadPoolExecutor(6) as ex:
@@ -611,11 +619,14 @@ def run(rep, tier):
         if ans_model is None:
             continue
         enc = []
+        raises = set()
         for j, k in enumerate(c["paths"]):
             a = ans_model[ci][j]
             code = a[1] if k == "stuck" else a[0]
+            if k == "stuck" and code < 0:
+                raises.add(j)   # the model's solve_low_level raises on this reply
             enc += [KIND_CODE[k], code if code >= 0 else 4]
-        for name, sched in schedules(c, n):
+        for name, sched in schedules(c, n, raises):
             run_index.append((ci, name))
             run_calls.append(("c05_run", [1 if c.get("ee") else 0, n] + enc + sched))
     run_res = m.parallel_batch(run_calls) if m else []
@@ -623,6 +634,7 @@ def run(rep, tier):
     for (ci, name), rr in zip(run_index, run_res):
         model_runs.setdefault(ci, {})[name] = rr
     nbad = 0
+    n_inconclusive = 0
     for ci, (c, res) in enumerate(zip(cases, results)):
         paths = c["paths"]
         answers = []
@@ -634,6 +646,10 @@ def run(rep, tier):
             else:
                 answers.append(None)
         want = spec_label(paths, answers)
+        if res.get("inconclusive"):
+            rep.count("mode", "inconclusive (solver process starved / harness timeout)")
+            n_inconclusive += 1
+            continue
         obs = impl_obs(c, res)
         nontrivial = any(k in POTENTIAL or k == "stuck" for k in paths)
         rep.case({"tie": "e2e", **{k: v for k, v in c.items()}}, nontrivial=nontrivial)
@@ -658,6 +674,9 @@ def run(rep, tier):
             f8b = (not f8 and want == "FAIL" and obs["label"] == "ERROR" and obs["code"] == 5 and stuck_raises and "Error" in res["log_tail"])
             sig = {"defect": "shutdown-error-escapes-stuck-solve"} if f8 else {"observable": "verdict", "spec": want, "implementation": obs["label"]}
             if f8b:
+                mr = model_runs.get(ci, {})
+                if m and not any(v[0] == 2 for v in mr.values()):
+                    rep.fail("broken-tie", f"implementation raised out of run_test but no model schedule does, on {short}", case=short)
                 report_failing_input(rep, f"verdict {obs['label']} (exit code {obs['code']}) where the property demands FAIL: {paths} {c['replies']}", short, {"defect": "stuck-solve-exception-escapes"})
             elif f8:
                 # must also be what the model predicts for the stale-read schedule
@@ -675,23 +694,23 @@ def run(rep, tier):
         mr = model_runs.get(ci)
         if mr is None:
             continue
-        if stuck_raises:
-            if (obs["label"], obs["code"]) != ("ERROR", 5) and not c.get("ee"):
-                rep.fail("broken-tie", f"a raising stuck-path solve was expected to surface as ERROR/5, got {obs} on {short}", case=short)
-            continue
         late = mr["late"]
         allowed = {(LABELS[v[1]], v[2]) for v in mr.values() if v[0] in (1, 2)}
-        if late[0] != 1:
+        if late[0] not in (1, 2):
             rep.fail("broken-tie", f"model did not finish on the canonical schedule for {short}: {late}", case=short)
             continue
         if (obs["label"], obs["code"]) not in allowed:
             rep.fail("broken-tie", f"implementation {(obs['label'], obs['code'])} not among the model's results {sorted(allowed)} on {short}", case=short)
             continue
-        if not c.get("ee"):
+        if not c.get("ee") and late[0] == 1:
             mo = {"normal": late[3], "nstuck": late[4], "num_models": late[5]}
             io = {k: obs[k] for k in mo}
             if mo != io:
                 rep.fail("broken-tie", f"path counters differ: implementation {io}, model {mo} on {short}", case=short)
+
+    if n_inconclusive > max(3, len(cases) // 10):
+        rep.fail("broken-tie", f"{n_inconclusive} of {len(cases)} end-to-end runs were inconclusive (solver processes starved); the tie did not really run", case={"inconclusive": n_inconclusive})
+    rep.coverage["inconclusive_runs"] = n_inconclusive
 
     # ---------------- X5 several tests, setUp failure, nothing selected
     multi = gen_multi(tier, r)
@@ -699,6 +718,8 @@ def run(rep, tier):
         mresults = list(ex.map(run_case, multi))
     for c, res in zip(multi, mresults):
         tests = c["tests"]
+        if res.get("inconclusive"):
+            continue
         rep.case({"tie": "exit-code", **c}, nontrivial=True)
         rep.count("mode", "multi-test")
         labels, codes = [], []
